@@ -65,6 +65,7 @@ def check(report, tier, only=None):
            ('send_stream_drop', lambda rep: rpcpath.ob_send_stream_drop(rep, PROP)), ('connection_end', ob_tail_aborts_tasks), ('request_failure', ob_handle_no_connection_ops),
            ('rpc_not_detached', lambda rep: rpcpath.ob_rpc_not_detached(rep, PROP)),
            ('rpc_state_on_drop', lambda rep: rpcpath.ob_rpc_state_released_on_drop(rep, PROP)),
+           ('peer_call', lambda rep: __import__('props.C11', fromlist=['x']).ob_peer_uses_layer(rep)),
            ('removal_entry_points', lambda rep: __import__('props.C04', fromlist=['x']).ob_removal_entry_points(rep)),
            ('stream_errors', C06.ob_handle_confines_errors)]
     for n, f in obs:
